@@ -1,33 +1,37 @@
 ---------------------------- MODULE WebPushTrace ----------------------------
 (***************************************************************************)
 (* Validates recorded calls of the real WebPushPublisher.publish_message    *)
-(* against WebPushDef!Recipients (C33).  One event per call:                *)
+(* against WebPushDef!Recipients (C33).  A trace is a history on one        *)
+(* database, one event per call of the real repository / publisher:         *)
+(*  [e |-> "store", pref |-> [user, roles, scope, topics, units]]            *)
+(*  [e |-> "subscribe", id, user]                                            *)
 (*  [e |-> "publish", topic, unit, required, contributors, about,            *)
-(*   prefs |-> <<[user, roles, scope, topics, units]>>,                       *)
-(*   subs |-> <<[id, user]>>, posted |-> <<subscription ids in call order>>] *)
-(* The database content is what the repository stored through the real      *)
-(* WebPushRepository; `posted` is what reached the (stubbed) HTTP post.     *)
+(*   posted |-> <<subscription ids in call order>>, exc]                     *)
+(* The spec rebuilds the stored preferences from the store events (a user's *)
+(* roles and choices change over time and are stored again under the same   *)
+(* user id: the last store wins); `posted` is what reached the (stubbed)    *)
+(* HTTP post.                                                               *)
 (***************************************************************************)
 EXTENDS Integers, Sequences, FiniteSets, TLC, TraceLib, WebPushDef
 
-VARIABLES tid, l, viols, done
-tvars == <<tid, l, viols, done>>
+VARIABLES prefs, subs,      \* what the recorded store / subscribe calls have put into the database: the last store of a user wins
+          tid, l, viols, done
+tvars == <<prefs, subs, tid, l, viols, done>>
 T == Traces[tid].ev
 SetOfSeq(q) == {q[i] : i \in DOMAIN q}
 
-Prefs(e) == {[user |-> p.user, roles |-> SetOfSeq(p.roles), scope |-> p.scope, topics |-> SetOfSeq(p.topics), units |-> SetOfSeq(p.units)]
-             : p \in SetOfSeq(e.prefs)}
-Subs(e) == {[id |-> s.id, user |-> s.user] : s \in SetOfSeq(e.subs)}
+Norm(p) == [user |-> p.user, roles |-> SetOfSeq(p.roles), scope |-> p.scope, topics |-> SetOfSeq(p.topics), units |-> SetOfSeq(p.units)]
 
 Clauses(e) ==
-    LET prefs == Prefs(e) subs == Subs(e)
-        required == SetOfSeq(e.required) contributors == SetOfSeq(e.contributors)
+    LET required == SetOfSeq(e.required) contributors == SetOfSeq(e.contributors)
         want == Recipients(prefs, subs, e.topic, e.unit, required, contributors, e.about)
         got == SetOfSeq(e.posted)
         UserOf(i) == (CHOOSE s \in subs : s.id = i).user
         PrefOf(u) == CHOOSE p \in prefs : p.user = u
         extra == got \ want
-        Why(i) == LET p == PrefOf(UserOf(i)) IN
+        Why(i) == IF ~\E s \in subs : s.id = i THEN "unknown-subscription"
+                  ELSE IF ~\E p \in prefs : p.user = UserOf(i) THEN "user-without-preferences"
+                  ELSE LET p == PrefOf(UserOf(i)) IN
                   IF ~HasAccess(required, p.roles) THEN "without-access"
                   ELSE IF e.topic \notin p.topics THEN "topic-not-selected"
                   ELSE IF e.topic = "new_contributor" /\ UserOf(i) = e.about THEN "to-the-contributor-itself"
@@ -38,10 +42,16 @@ Clauses(e) ==
        <<"C33.at-most-once", Cardinality(got) = Len(e.posted)>>,
        <<"C33.publish-does-not-raise", e.exc = "none">> >>
 
-TInit == tid \in 1..Len(Traces) /\ l = 1 /\ viols = {} /\ done = FALSE
+TInit == tid \in 1..Len(Traces) /\ l = 1 /\ viols = {} /\ done = FALSE /\ prefs = {} /\ subs = {}
 Step == /\ l <= Len(T)
-        /\ viols' = AddViols(viols, Failing(Clauses(T[l])), l)
+        /\ LET e == T[l] IN
+           CASE e.e = "store" ->        \* WebPushRepository.store_notifications_preferences: replaces what was stored for that user
+                  /\ prefs' = {p \in prefs : p.user # e.pref.user} \cup {Norm(e.pref)} /\ UNCHANGED <<subs, viols>>
+             [] e.e = "subscribe" ->    \* store_subscription: one more device of that user
+                  /\ subs' = subs \cup {[id |-> e.id, user |-> e.user]} /\ UNCHANGED <<prefs, viols>>
+             [] OTHER ->
+                  /\ viols' = AddViols(viols, Failing(Clauses(e)), l) /\ UNCHANGED <<prefs, subs>>
         /\ l' = l + 1 /\ UNCHANGED <<tid, done>>
-Finish == /\ l = Len(T) + 1 /\ ~done /\ done' = TRUE /\ Report(Traces[tid].id, l - 1, viols) /\ UNCHANGED <<tid, l, viols>>
+Finish == /\ l = Len(T) + 1 /\ ~done /\ done' = TRUE /\ Report(Traces[tid].id, l - 1, viols) /\ UNCHANGED <<prefs, subs, tid, l, viols>>
 TSpec == TInit /\ [][Step \/ Finish]_tvars
 =============================================================================
